@@ -153,6 +153,10 @@ struct tar {
 	int			 compat_2x;
 	int			 process_mac_extensions;
 	int			 read_concatenated_archives;
+	/* Fake dev/ino numbers assigned to entries, see
+	 * archive_read_format_tar_read_header(). */
+	int			 default_inode;
+	int			 default_dev;
 };
 
 /* Track which size fields were present in the headers */
@@ -517,11 +521,11 @@ archive_read_format_tar_read_header(struct archive_read *a,
 	 * but the memory required to store a complete lookup table is
 	 * probably not worthwhile just to support the relatively
 	 * obscure tar->cpio conversion case.
+	 *
+	 * The counters live in `struct tar`, so the numbers are
+	 * distinct within one archive and independent of any other
+	 * archive being read by the process.
 	 */
-	/* TODO: Move this into `struct tar` to avoid conflicts
-	 * when reading multiple archives */
-	static int default_inode;
-	static int default_dev;
 	struct tar *tar;
 	const char *p;
 	const wchar_t *wp;
@@ -530,16 +534,17 @@ archive_read_format_tar_read_header(struct archive_read *a,
 	int64_t unconsumed = 0;
 	int is_sparse;
 
+	tar = (struct tar *)(a->format->data);
+
 	/* Assign default device/inode values. */
-	archive_entry_set_dev(entry, 1 + default_dev); /* Don't use zero. */
-	archive_entry_set_ino(entry, ++default_inode); /* Don't use zero. */
+	archive_entry_set_dev(entry, 1 + tar->default_dev); /* Don't use zero. */
+	archive_entry_set_ino(entry, ++tar->default_inode); /* Don't use zero. */
 	/* Limit generated st_ino number to 16 bits. */
-	if (default_inode >= 0xffff) {
-		++default_dev;
-		default_inode = 0;
+	if (tar->default_inode >= 0xffff) {
+		++tar->default_dev;
+		tar->default_inode = 0;
 	}
 
-	tar = (struct tar *)(a->format->data);
 	tar->entry_offset = 0;
 	gnu_clear_sparse_list(tar);
 	tar->size_fields = 0; /* We don't have any size info yet */
